@@ -35,6 +35,9 @@ FULL_FORMATS = [
     "YYYY-MM-DD HH:mm:ss.SSSSSS Z", "YYYY-MM-DDTHH:mm:ss.SSSSSSZZ", "DD/MM/YYYY HH:mm:ss.SSSSSS z", "YYYY-DDDD HH:mm:ss.SSSSSS Z",
     "dddd D MMMM YYYY HH:mm:ss.SSSSSS Z", "ddd, DD MMM YYYY HH:mm:ss.SSSSSS ZZ", "YYYY-MM-DD hh:mm:ss.SSSSSS A Z", "YYYY-M-D H:m:s.SSSSSS Z",
     "MMMM Do YYYY HH:mm:ss.SSSSSS Z", "YYYY [year] MM [month] DD [day] HH:mm:ss.SSSSSS z",
+    # the same information in other orders: what a token means must not depend on what was read before it
+    "DDDD/YYYY HH:mm:ss.SSSSSS Z", "HH:mm:ss.SSSSSS Z DD-MM-YYYY", "Z ss:mm:HH.SSSSSS D/M/YYYY", "A hh:mm:ss.SSSSSS DD.MM.YYYY ZZ",
+    "[day] DDD [of] YYYY HH:mm:ss.SSSSSS Z",
 ]
 PARTIAL = ["HH:mm", "HH:mm:ss", "hh:mm A", "H", "MM-DD", "MM-DD HH:mm", "DD", "D HH:mm:ss.SSS", "YYYY", "YYYY-MM", "YYYY HH", "MM",
            "M/D", "HH:mm:ss.SSSSSS", "mm:ss", "Q", "DDDD", "YYYY-DDD"]
@@ -334,6 +337,11 @@ def gen(rp, rw, tier):
                 if bad == text:
                     bad = text + "!"
                 ops.append(["pcall", "from_format", [bad, fmt], {"tz": gen_dt.tz_spec("UTC")}, "mismatch"])
+        if rp.random() < 0.12:
+            # the timestamp token read back: seconds since the epoch over the whole year range
+            secs = rp.randrange(-30610224000, 253402300799) if rp.random() < 0.7 else rp.choice(
+                [-30610224000, -24298876800, -24298876801, -12219292800, -1, 0, 1, 2**31 - 1, 2**31, 253402300799])
+            ops.append(["pcall", "from_format", [str(secs), "X"], {"tz": gen_dt.tz_spec("UTC")}, "timestamp"])
         if c == 0 and twins:
             # the same format (and locale) applied to both twins
             fmt = rp.choice(FULL_FORMATS[:2] + ["YYYY-MM-DD HH:mm:ss.SSSSSS Z zz X", _random_fmt(rp)])
@@ -470,6 +478,12 @@ def l2_check(run):
                               extra=["3part" if (zname and " z" in fmt and zname.count("/") == 2) else "x"])
                     continue
                 text = args[0]
+                if len(op) > 4 and op[4] == "timestamp":
+                    n += 1
+                    want = tzdb.us_to_fields(int(text) * US)
+                    if not (isinstance(o, list) and o and o[0] == "DateTime" and o[1] == want and o[3] == 0):
+                        _viol(viols, "timestamp", a, i, op, rec, {"text": text, "want_fields_utc": want})
+                    continue
                 if fmt in PARTIAL and not (len(op) > 4 and op[4] == "mismatch"):
                     src_fields = _parse_back(fmt, text, kw.get("locale"))
                     if src_fields is None:
